@@ -4,7 +4,9 @@ import LouModel
     `handle? : List String → Option String`; first match wins -/
 def handlers : List (List String → Option String) := [
   Lou.Proto.handle?,
-  Lou.Alloc.handle?
+  Lou.Alloc.handle?,
+  Lou.Resolve.handle?,
+  Lou.Log.handle?
 ]
 
 def handleLine (line : String) : String :=
